@@ -25,6 +25,9 @@ Definition kvalidb (k : str) (v : json) (x : json) : bool :=
   else if iskw k "NOT_enum" then match v with JArr l => negb (existsb (json_eqb x) l) | _ => true end
   else true.
 
+Definition LK : list str := kws ["allOf"; "anyOf"; "oneOf"]%string.       (* a list of sub-schemas *)
+Definition UK : list str := kws ["not"; "if"; "then"; "else"]%string.     (* one sub-schema *)
+
 Fixpoint semb (f : nat) (x : json) (s : json) : bool :=
   match f with
   | 0 => false
@@ -33,9 +36,17 @@ Fixpoint semb (f : nat) (x : json) (s : json) : bool :=
     | JBool b => b
     | JObj d =>
       forallb (fun '(k, v) => if smem k SK then kvalidb k v x else true) d
+      && match dget (kw "const") d with Some c => json_eqb x c | None => true end
       && match dget (kw "allOf") d with Some (JArr l) => forallb (semb f' x) l | _ => true end
       && match dget (kw "anyOf") d with Some (JArr l) => existsb (semb f' x) l | _ => true end
+      && match dget (kw "oneOf") d with Some (JArr l) => Nat.eqb (List.length (filter (semb f' x) l)) 1 | _ => true end
       && match dget (kw "not") d with Some n => negb (semb f' x n) | None => true end
+      && match dget (kw "if") d with
+         | Some i => if semb f' x i
+                     then match dget (kw "then") d with Some t => semb f' x t | None => true end
+                     else match dget (kw "else") d with Some e => semb f' x e | None => true end
+         | None => true
+         end
     | _ => false
     end
   end.
@@ -60,9 +71,10 @@ Fixpoint fragb (f : nat) (s : json) : bool :=
       nodupb (map fst d) &&
       forallb (fun '(k, v) =>
                  if smem k SK then wtvb k v
-                 else if iskw k "allOf" || iskw k "anyOf" then match v with JArr l => forallb (fragb f') l | _ => false end
-                 else if iskw k "not" then fragb f' v else false) d
+                 else if smem k LK then match v with JArr l => forallb (fragb f') l | _ => false end
+                 else if smem k UK then fragb f' v
+                 else if iskw k "const" then is_scalar v
+                 else false) d
     | _ => false
     end
   end.
-
